@@ -73,6 +73,7 @@ class Proto(Protocol):
     def exch(self) -> Stream[Exch]: ...
     def prod_h(self) -> Stream[Prod, Hdr]: ...
     def ping(self) -> int: ...
+    def blob(self, n: int) -> bytes: ...
 
 
 class Impl:
@@ -87,6 +88,9 @@ class Impl:
 
     def ping(self) -> int:
         return 7
+
+    def blob(self, n: int) -> bytes:
+        return b"x" * n
 
 
 def reset(**cfg):
